@@ -208,7 +208,7 @@ def gen_sched_case(rng, max_points=600):
         td = rng.choice([1, 1, 2, 2, 3])
         nres = [rng.choice([1, 1, 2, 2, 3]) for _ in range(nops)]
         style = rng.choice(["unit", "unit", "sparse", "tiled"])
-        tb = [rng.choice([None, None, 2, 2, 3, 4, 8]) for _ in range(td)]
+        tb = [rng.choice([None, None, 2, 2, 3, 4, 8, 1]) for _ in range(td)]   # 1: a unit template dim must still be enforced
         trows = [gen_matrix(rng, nres[o], td, style) for o in range(nops)]
         n = rng.choice([max(1, td - 1), td, td, td + 1, td + 1, td + 2])
         n = min(n, 4)
@@ -232,7 +232,9 @@ def gen_sched_case(rng, max_points=600):
                     if q in pos:
                         rows[i][q] = trows[o][i + drop][pos.index(q)]
                     else:
-                        rows[i][q] = rng.choice([0, 0, 0, 1, 2]) if rng.random() < 0.5 else 0
+                        # temporal (non-template) dims: also negative strides (audit: a sign-sensitive
+                        # predicate or matcher must see them outside the template dims too)
+                        rows[i][q] = rng.choice([0, 0, 0, 1, 2, -1, -2]) if rng.random() < 0.5 else 0
             sp.append((list(sb), rows, [0] * (nres[o] - drop)))
         tp = [(list(tb), trows[o], [0] * nres[o]) for o in range(nops)]
         return tp, sp, fam
@@ -270,10 +272,22 @@ def gen_sched_case(rng, max_points=600):
             break
     sp = []
     for o in range(nops):
-        rows = [[rng.choice([0, 0, 1]) for _ in range(extra)] + list(base[o][i]) for i in range(nres[o])]
+        rows = [[rng.choice([0, 0, 1, 1, -1]) for _ in range(extra)] + list(base[o][i]) for i in range(nres[o])]
         sp.append((list(sb), rows, [0] * nres[o]))
     tp = [(list(tb), trows[o], [0] * nres[o]) for o in range(nops)]
     return tp, sp, fam
+
+
+def gen_predicate_pair(rng):
+    """(template plain, schedule plain) for the constraint predicates alone: the predicates only read
+    template.num_dims and the schedule matrices, so the pair need not match; the schedule has 1-3 temporal
+    dims outside the template and entries of every sign (unit / sparse / dense / tiled styles)."""
+    nops = rng.choice([1, 1, 2, 2, 3])
+    tp = gen_template_plain(rng, ndims=rng.choice([1, 1, 2, 2, 3]), nops=nops)
+    n = len(tp[0][0]) + rng.choice([1, 2, 2, 3])
+    sp = gen_schedule_plain(rng, ndims=n, nops=nops, max_points=10 ** 12,
+                            nres_list=[rng.choice([1, 1, 2, 2, 3]) for _ in range(nops)])
+    return tp, sp
 
 
 def gen_checks(rng, nops):
